@@ -40,7 +40,9 @@ CONSTS = [0, 7, -3, 2.5, 1e300, -1e-300, 123456789012345678, True, False, DT(202
           '=ZZZZ1', '=AAAA1:B2', '=SUM(A1:ZZZZ1)', '=007', '=A1+007', '=00', '=1.50', '=0.0', '=A1+0010.0100',
           '=TRUE', '=1E5', '=.5', '=1.', '=$A$1', '=A$1:$B2', "='S'!A1", "='S'!", '=S!', '=!A1', '=ZZZ99999999', '=A0', '=XFE1',
           '=A1048577', '=RC[-1]', '=SUM(A:A)', '=SUM(1:1)', '=A1 B1', '=(A1,B1)', '=-', '=+', '=%', '=1%%', '=""""', '="a""b"',
-          ('$array', '=SUM(A1:A2*2)'), ('$array', '=A1:A2')]
+          ('$array', '=SUM(A1:A2*2)'), ('$array', '=A1:A2'),
+          # complete formulas followed by white space, white space only, an unknown character before a percent sign
+          '=A1 ', '=1+2\n', '=SUM(A1:A2)  ', '= ', '=\t', '=A1^2*50%', '=ABS(A1)*5%', '=A1#+10%*(2)', '=A1 %', '=A1{}%s', '=A1^%d']
 
 # references that cannot exist (column beyond ZZZ / XFD, row 0, row beyond the sheet, unknown sheet) in every position that
 # takes a reference
